@@ -143,6 +143,11 @@ def run(ctx):
     ctx.rng.shuffle(lits)
     for n, e in enumerate(lits[:2000 if quick else 12000]):
         items.append(dict(id="l%d" % n, text=bytes(e["src"]).decode("latin-1"), mouts=None, literal=True))
+    # several literals in one compilation (same value, different delimiters / spellings)
+    from props import c07
+    pool = [dict(kind=e["kind"], lit=e["lit"], ref=e.get("ref")) for e in lits]
+    for m in c07.multi_items(ctx, pool, 150 if quick else 2000):
+        items.append(dict(id="lm" + m["id"], text=bytes(m["src"]).decode("latin-1"), mouts=None, literal=True))
     from props import c06
     for f in c06.fixture_items():       # the repository's fixtures print through console.log
         items.append(dict(id=f["id"], text=f["text"], mouts=None))
